@@ -1,9 +1,10 @@
 import Driver.Util
 import HeimdallModel.Spec.Jwt
 -- @family jwt
-/-! Line-protocol family `jwt` (property C05): the case as generated plus the abstract view `abs` of the minted
-token (computed by the harness with the Go standard library only) → verdict of `Jwt.authenticate` (the function the
-theorems of `Props/C05.lean` are about) and of the executable specification `Jwt.Spec.authenticate`. -/
+/-! Line-protocol family `jwt` (property C05): the case as generated plus, per request, the abstract view `abs` of
+the minted token (computed by the harness with the Go standard library only) → verdicts of `Jwt.run` (the functions
+the theorems of `Props/C05.lean` are about) and of the executable specification `Jwt.Spec.authenticate`, the latter
+against the key-set endpoint as it answered at each moment up to the request (`c05_history_sound`). -/
 open Lean Heimdall Heimdall.Jwt
 
 namespace Driver.Jwt
@@ -24,13 +25,26 @@ partial def ofVal : Val → Json
   | .arr l => Json.arr (l.map ofVal).toArray
   | .obj kvs => Json.mkObj (kvs.map fun (k, v) => (k, ofVal v))
 
+/-- gjson syntax the model does not cover -/
+def specialPath (s : String) : Bool :=
+  s.toList.any fun c => "*?#|@\\!{}[]:,<>=%~\"'()".toList.contains c
+
 def path (s : String) : List Seg := (s.splitOn ".").map fun k => { key := k, idx := k.toNat? }
+
+/-- a Go duration of the form `<int><unit>`, in milliseconds -/
+def duration (s : String) : Option Int :=
+  let num (n : Nat) : Option Int := (s.dropEnd n).toString.toInt?
+  if s.endsWith "ms" then num 2
+  else if s.endsWith "s" then (num 1).map (· * 1000)
+  else if s.endsWith "m" then (num 1).map (· * 60000)
+  else if s.endsWith "h" then (num 1).map (· * 3600000)
+  else none
 
 def leeway (j : Json) : E Int :=
   match j.getObjVal? "validity_leeway" with
   | .ok (.str s) =>
-    match (s.dropEnd 2).toString.toInt? with
-    | some n => if s.endsWith "ms" then pure n else throw s!"leeway {s}"
+    match duration s with
+    | some n => pure n
     | none => throw s!"leeway {s}"
   | _ => pure 0
 
@@ -54,49 +68,79 @@ def expectation (j : Json) : E Expectation := do
   pure { issuers := ← strsD j "issuers", scopes := ← scopes j, audiences := ← strsD j "audience",
          algs := ← strsD j "allowed_algorithms", leeway := ← leeway j }
 
-def config (c : Json) : E Config := do
+/-- `isCacheEnabled` for a `cache_ttl` setting: not configured, or positive -/
+def ttlEnabled (j : Json) : Option Bool :=
+  match j.getObjVal? "cache_ttl" with
+  | .ok (.str s) => (duration s).map (· > 0)
+  | _ => none
+
+def config (c : Json) : E (Config × Bool) := do
   let cc := fldD c "conf" (Json.mkObj [])
   let a ← if isNull cc "assertions" then pure ({} : Expectation) else expectation (← fld cc "assertions")
   let sj := fldD cc "subject" Json.null
   let idp := strD sj "id" "sub"
-  let attrs := if isNull sj "attributes" then none else some (path (strD sj "attributes" ""))
-  pure { jwksMode := strD c "mode" "jwks" != "metadata", assertions := a,
-         subject := { idPath := path idp, attrsPath := attrs },
-         validateJwk := boolD cc "validate_jwk" true }
+  let ap := if isNull sj "attributes" then none else some (strD sj "attributes" "")
+  let attrs := match ap with
+    | none => none
+    | some "@this" => none
+    | some p => some (path p)
+  let special := specialPath idp || (match ap with | some "@this" => false | some p => specialPath p | none => false)
+  let rule := fldD c "rule" Json.null
+  let enabled := ((ttlEnabled rule).orElse fun _ => ttlEnabled cc).getD true
+  pure ({ jwksMode := strD c "mode" "jwks" != "metadata", templated := boolD cc "templated" false, assertions := a,
+          subject := { idPath := path idp, attrsPath := attrs },
+          validateJwk := boolD cc "validate_jwk" true, cacheEnabled := enabled }, special)
 
 def key (trust : Bool) (j : Json) : E Key := do
-  let cert := match strD j "cert" "none" with
+  if !isNull j "raw" then
+    -- a key go-jose accepts but which is none of the pool's materials
+    return { kid := strD j "kid" "", alg := strD j "alg" "", mat := 99 }
+  let fl := strD j "cert" "none"
+  let cert := match fl with
     | "none" => Cert.none
     | "valid" => if trust then Cert.trusted else Cert.untrusted
+    | "chain" => if trust then Cert.trusted else Cert.untrusted
     | _ => Cert.untrusted
   pure { kid := strD j "kid" "", alg := strD j "alg" "", mat := ← nat j "mat", cert := cert,
-         usable := strD j "form" "public" != "private" }
+         certExpiring := fl == "expired", usable := strD j "form" "public" != "private" }
 
-/-- `ServerMetadata.verify` for a metadata URL `<srv>/.well-known/openid-configuration` -/
+def keySet (trust : Bool) (jw : Json) : E (Option (List Key)) := do
+  if strD jw "status" "ok" != "ok" then return none
+  let ks := arrD jw "keys"
+  if ks.any (fun k => strD k "effect" "" == "undecodable") then return none
+  pure (some (← ks.mapM (key trust)))
+
 def issuerIdentifies (issuer srv : String) : Bool := issuer == srv || issuer == srv ++ "/"
 
-def world (c : Json) : E World := do
+def metadataOf (c : Json) : Option Metadata :=
+  let m := fldD c "meta" Json.null
+  let verified := !boolD m "verify" false || issuerIdentifies (strD m "issuer" "") (strD c "srv" "$SRV")
+  match strD m "status" "ok" with
+  | "ok" => if verified then some { issuer := strD m "issuer" "", hasJwks := true } else none
+  | "nojwks" => if verified then some { issuer := strD m "issuer" "", hasJwks := false } else none
+  | "noissuer" => if boolD m "verify" false then none else some { issuer := "", hasJwks := true }
+  | _ => none
+
+/-- what the endpoints answer during one step -/
+def world (c : Json) (jw : Json) : E World := do
   let cc := fldD c "conf" (Json.mkObj [])
   let trust := boolD cc "trust_store" false
-  let jw := fldD c "jwks" (Json.mkObj [])
-  let jwks ← if strD jw "status" "ok" == "ok" then (do pure (some (← (arrD jw "keys").mapM (key trust)))) else pure none
-  let m := fldD c "meta" Json.null
-  let md : Option Metadata :=
-    match strD m "status" "ok" with
-    | "ok" => if boolD m "verify" false && !issuerIdentifies (strD m "issuer" "") (strD c "srv" "$SRV") then none
-              else some { issuer := strD m "issuer" "", hasJwks := true }
-    | "nojwks" => if boolD m "verify" false && !issuerIdentifies (strD m "issuer" "") (strD c "srv" "$SRV") then none
-                  else some { issuer := strD m "issuer" "", hasJwks := false }
-    | _ => none
-  pure { metadata := md, jwks := jwks }
+  let dflt ← keySet trust jw
+  let byIss : List (String × Option (List Key)) ← match jw.getObjVal? "by_issuer" with
+    | .ok (.obj o) => o.toList.mapM fun (iss, spec) => do pure (iss, ← keySet trust spec)
+    | _ => pure []
+  let templated := boolD cc "templated" false && strD c "mode" "jwks" != "metadata"
+  pure { metadata := metadataOf c,
+         jwks := fun u => if templated then (byIss.lookup u).getD none else dflt }
 
-def presented (a : Json) : E Presented := do
-  if !boolD a "present" false then return .absent
-  if !boolD a "wf" false then return .garbage
-  let sig := (arrD a "sig").map fun j => j.getBool?.toOption.getD false
-  let payload := if boolD a "payload_json" false then some (toVal (fldD a "payload" Json.null)) else none
-  pure (.token { alg := strD a "alg" "", kid := strD a "kid" "", critOk := !boolD a "crit_bad" false,
-                 payload := payload, sigOk := fun m => sig[m]?.getD false })
+def presented (a : Json) : Presented :=
+  if !boolD a "present" false then .absent
+  else if !boolD a "wf" false then .garbage
+  else
+    let sig := (arrD a "sig").map fun j => j.getBool?.toOption.getD false
+    let payload := if boolD a "payload_json" false then some (toVal (fldD a "payload" Json.null)) else none
+    .token { alg := strD a "alg" "", kid := strD a "kid" "", critOk := !boolD a "crit_bad" false,
+             canonical := boolD a "canonical" true, payload := payload, sigOk := fun m => sig[m]?.getD false }
 
 def whyName (w : Why) : String := (reprStr w).replace "Heimdall.Jwt.Why." ""
 
@@ -112,30 +156,59 @@ def why : Outcome → String
   | .noAuthenticator => "config"
   | .unmodelled => "unmodelled"
 
+/-- the token's issuer decides the url but is not a string: the rendering of the template is not modelled -/
+def templateUnmodelled (cfg : Config) (p : Presented) : Bool :=
+  cfg.jwksMode && cfg.templated &&
+    match p with
+    | .token t =>
+      match t.payload with
+      | some (.obj kvs) => match lookup "iss" kvs with | some (.str _) => false | _ => true
+      | _ => false
+    | _ => false
+
+def marker (s : String) : Json := Json.mkObj [("verdict", s)]
+
 def run (c : Json) : E Json := do
-  let a ← fld c "abs"
-  let cfg ← config c
+  let (cfg, special) ← config c
   let rule ← if isNull c "rule" then pure none
              else (do
                let r ← fld c "rule"
                if isNull r "assertions" then pure (some ({} : Expectation))
                else pure (some (← expectation (← fld r "assertions"))))
-  let w ← world c
-  let p ← presented a
-  let now ← int a "now"
-  let lo := authenticate cfg rule w p (now * 1000)
-  let hi := authenticate cfg rule w p (now * 1000 + 999)
-  let slo := Spec.authenticate cfg rule w p (now * 1000)
-  let shi := Spec.authenticate cfg rule w p (now * 1000 + 999)
-  let jl := verdict lo.verdict
-  let jh := verdict hi.verdict
-  let sl := verdict slo
-  let sh := verdict shi
-  let wl := why lo
-  let amb := jl.compress != jh.compress || sl.compress != sh.compress
-  let unmod := boolD a "unmodelled_header" false
-  let res := if amb then Json.mkObj [("verdict", "ambiguous")] else if unmod then Json.mkObj [("verdict", "unmodelled")] else jl
-  let spec := if amb then Json.mkObj [("verdict", "ambiguous")] else if unmod then Json.mkObj [("verdict", "unmodelled")] else sl
-  return Json.mkObj [("res", res), ("spec", spec), ("stats", Json.mkObj [("why", jstr wl)])]
+  -- steps: earlier requests, then the request of the case
+  let pre := arrD c "pre"
+  let absPre := arrD c "abs_pre"
+  let mut steps : List (World × Presented × Int) := []
+  for (st, a) in pre.zip absPre do
+    let jw := if isNull st "jwks" then fldD c "jwks" (Json.mkObj []) else fldD st "jwks" (Json.mkObj [])
+    steps := steps ++ [(← world c jw, presented a, ← int a "now")]
+  let a ← fld c "abs"
+  steps := steps ++ [(← world c (fldD c "jwks" (Json.mkObj [])), presented a, ← int a "now")]
+  let lo := Heimdall.Jwt.run cfg rule (steps.map fun (w, p, n) => (w, p, n * 1000)) []
+  let hi := Heimdall.Jwt.run cfg rule (steps.map fun (w, p, n) => (w, p, n * 1000 + 999)) []
+  let unmod := special || steps.any (fun (_, p, _) => templateUnmodelled cfg p) ||
+    boolD a "unmodelled_header" false || absPre.any (fun a => boolD a "unmodelled_header" false)
+  let mut out : List Json := []
+  let mut specs : List Json := []
+  let mut whys : List Json := []
+  let mut i := 0
+  for ((w, p, n), (l, h)) in steps.zip (lo.zip hi) do
+    let jl := verdict l.verdict
+    let jh := verdict h.verdict
+    -- the specification against the key-set endpoint as it answered now or earlier
+    let cands := (steps.take (i + 1)).map fun (w', _, _) =>
+      let ww : World := { metadata := w.metadata, jwks := w'.jwks }
+      let s1 := verdict (Spec.authenticate cfg rule ww p (n * 1000))
+      let s2 := verdict (Spec.authenticate cfg rule ww p (n * 1000 + 999))
+      if s1.compress == s2.compress then s1 else marker "ambiguous"
+    let amb := jl.compress != jh.compress || cands.any (fun s => s.compress == (marker "ambiguous").compress)
+    out := out ++ [if unmod then marker "unmodelled" else if amb then marker "ambiguous" else jl]
+    specs := specs ++ [if unmod then jarr [marker "unmodelled"] else if amb then jarr [marker "ambiguous"] else jarr cands]
+    whys := whys ++ [jstr (why l)]
+    i := i + 1
+  let final := out.getLast?.getD (marker "unmodelled")
+  let res := final.setObjVal! "pre" (jarr out.dropLast)
+  return Json.mkObj [("res", res), ("spec", jarr specs),
+    ("stats", Json.mkObj [("why", whys.getLast?.getD (jstr "")), ("why_pre", jarr whys.dropLast)])]
 
 end Driver.Jwt
